@@ -265,7 +265,10 @@ class Worker:
             if isinstance(s, ast.If) and not s.orelse and s.body and isinstance(s.body[-1], ast.Return) and i + 1 < len(body):
                 # `if c: A; return` followed by B  ==  `if c: A else: B`
                 pre = self.expr_stmts(s.test) if calls_in(s.test) else []
-                out += pre + [f'SIf [{"; ".join(self.stmts(s.body))}] [{"; ".join(self.stmts(body[i + 1:]))}]']
+                a, b = self.stmts(s.body), self.stmts(body[i + 1:])
+                if isinstance(s.test, ast.UnaryOp) and isinstance(s.test.op, ast.Not):
+                    a, b = b, a               # `if not c` : the first branch of SIf is always the one taken when c holds
+                out += pre + [f'SIf [{"; ".join(a)}] [{"; ".join(b)}]']
                 return out
             out += self.stmt(s)
         return out
@@ -306,7 +309,10 @@ class Worker:
             return self.expr_stmts(s.value) if s.value is not None and calls_in(s.value) else []
         if isinstance(s, ast.If):
             pre = self.expr_stmts(s.test) if calls_in(s.test) else []
-            return pre + [f'SIf [{"; ".join(self.stmts(s.body))}] [{"; ".join(self.stmts(s.orelse))}]']
+            a, b = self.stmts(s.body), self.stmts(s.orelse)
+            if isinstance(s.test, ast.UnaryOp) and isinstance(s.test.op, ast.Not):
+                a, b = b, a
+            return pre + [f'SIf [{"; ".join(a)}] [{"; ".join(b)}]']
         if isinstance(s, ast.Try):
             hbody, swallow = [], False
             for h in s.handlers:
